@@ -14,7 +14,7 @@ def WellFormed : Mbc → Prop
                m.ramBank < m.ramLen
   | .mbc2 m => 0 < m.romLen ∧ m.romBank < m.romLen
   | .mbc3 m => 0 < m.romLen ∧ m.romBank < m.romLen ∧ 0 < m.ramLen
-  | .mbc5 m => 0 < m.romLen % 65536 ∧ m.romBank < m.romLen ∧ 0 < m.ramLen % 256 ∧ m.ramBank < m.ramLen
+  | .mbc5 m => 0 < m.romLen ∧ m.romBank < m.romLen ∧ 0 < m.ramLen % 256 ∧ m.ramBank < m.ramLen
 
 /-! #### checked operations succeed inside their bounds -/
 
@@ -156,8 +156,8 @@ theorem mbc3_read {m : Mbc3} (h : WellFormed (.mbc3 m)) (a : Nat) : (Mbc3.read m
 theorem mbc5_write {m : Mbc5} (h : WellFormed (.mbc5 m)) (a v : Nat) :
     ∃ m', Mbc5.write m a v = some m' ∧ WellFormed (.mbc5 m') := by
   obtain ⟨hr, hb, hq, hk⟩ := h
-  have hlt : ∀ x, x % (m.romLen % 65536) < m.romLen := fun x =>
-    Nat.lt_of_lt_of_le (Nat.mod_lt _ hr) (Nat.mod_le _ _)
+  have hlt : ∀ x, x % m.romLen % 65536 < m.romLen := fun x =>
+    Nat.lt_of_le_of_lt (Nat.mod_le _ _) (Nat.mod_lt _ hr)
   have hlt2 : ∀ x, x % (m.ramLen % 256) < m.ramLen := fun x =>
     Nat.lt_of_lt_of_le (Nat.mod_lt _ hq) (Nat.mod_le _ _)
   unfold Mbc5.write
@@ -173,7 +173,7 @@ theorem mbc5_write {m : Mbc5} (h : WellFormed (.mbc5 m)) (a v : Nat) :
 
 theorem mbc5_read {m : Mbc5} (h : WellFormed (.mbc5 m)) (a : Nat) : (Mbc5.read m a).isSome := by
   obtain ⟨hr, hb, hq, hk⟩ := h
-  have hrl : 0 < m.romLen := by omega
+  have hrl : 0 < m.romLen := hr
   unfold Mbc5.read
   repeat' split
   · rw [page?_ok hrl (by omega)]; rfl
